@@ -365,3 +365,105 @@ def _replay_prop(o, restricted, nm):
         o["witness"] = dict(o.get("witness") or {}, native=dict(norb=n, nchol=g, deviations={k: float(v_) for k, v_ in dev.items()}))
     except Exception as e:   # noqa
         o["witness"] = dict(o.get("witness") or {}, native_error=repr(e)[:300])
+
+
+def ru_prop_allsizes():
+    """C14.ru.prop.allsizes (PROOF, all norb / nchol): with h1[0] = h1[1] the restricted and the unrestricted propagator build the same mean-field shifts,
+    the same h0_prop and the same expm argument (for both spin blocks)."""
+    t0 = time.time()
+    H.setup_repo()
+    import jax
+    import jax.numpy as jnp
+    from ad_afqmc import wavefunctions as wf, propagation
+    name = "C14.ru.prop.allsizes"
+    fns = ["propagation.propagator_restricted._build_propagation_intermediates", "propagation.propagator_unrestricted._build_propagation_intermediates"]
+    sizes = dict(n=5, g=7)
+    n, g = 5, 7
+    T.SYMMETRIC.update({"L": (1, 2)})
+    T.REAL.update({"L", "rho_up", "rho_dn", "h1", "h0", "ene0"})
+    h1a = T.atom("h1", ["n", "n"])
+    A = dict(L=T.atom("L", ["g", "n", "n"], composite=[[0], [1, 2]]), ene0=T.atom("ene0", []), h0=T.atom("h0", []), h1=T.Stack([h1a, h1a]),
+             rho=T.Stack([T.atom("rho_up", ["n", "n"]), T.atom("rho_dn", ["n", "n"])]))
+    forms = {}
+    for cls, trial in (("propagator_restricted", wf.rhf(n, (2, 2))), ("propagator_unrestricted", wf.uhf(n, (2, 2)))):
+        prop = getattr(propagation, cls)(dt=0.015625, n_walkers=2)
+        ham = dict(chol=jnp.zeros((g, n * n)), ene0=jnp.zeros(()), h0=jnp.zeros(()), h1=jnp.zeros((2, n, n)))
+        wave = dict(rdm1=jnp.zeros((2, n, n)))
+
+        def f(hm, wv):
+            o = prop._build_propagation_intermediates(hm, trial, wv)
+            return o["mf_shifts"], o["h0_prop"], o["exp_h1"]
+        closed = jax.make_jaxpr(f)(ham, wave)
+        it = T.Interp(sizes, intercept={"expm": lambda it_, e, ins: [ins[0]]})
+        try:
+            mf, h0p, eh = it.run(closed.jaxpr, closed.consts, [A["L"], A["ene0"], A["h0"], A["h1"], A["rho"]])
+        except Unsupported as e:
+            return [ob(name, UNDECIDED, kind="proof", backend="tensor-normal-form", detail=f"Unsupported: {e}", functions=fns, wall=time.time() - t0)]
+        forms[cls] = (mf, h0p, [eh, eh] if isinstance(eh, T.TT) else list(eh))
+    a, b = forms["propagator_restricted"], forms["propagator_unrestricted"]
+    out = []
+    for nm, x, y in (("mf_shifts", a[0], b[0]), ("h0_prop", a[1], b[1]), ("exp_h1.up", a[2][0], b[2][0]), ("exp_h1.dn", a[2][1], b[2][1])):
+        ok = T.equal(x, y)
+        out.append(ob(f"{name}.{nm}", DISCHARGED if ok else REFUTED, kind="proof", backend="tensor-normal-form", functions=fns, wall=time.time() - t0,
+                      replayed=None, detail=f"{nm}: restricted and unrestricted normal forms {'agree' if ok else 'DIFFER: ' + str(T.describe(x))[:300] + ' vs ' + str(T.describe(y))[:300]} (all sizes, all values, h1[0] = h1[1])",
+                      witness=None if ok else dict(restricted=str(T.describe(x))[:600], unrestricted=str(T.describe(y))[:600]), witness_class="" if ok else "normal-form"))
+    if any(o["status"] == REFUTED for o in out):
+        rng = np.random.default_rng(3)
+        n_, g_ = 3, 2
+        h = rng.normal(size=(n_, n_)); h = h + h.T
+        L = rng.normal(size=(g_, n_, n_)); L = L + L.transpose(0, 2, 1)
+        rho = rng.normal(size=(2, n_, n_)); rho = rho + rho.transpose(0, 2, 1)
+        hd = dict(h0=0.2, h1=jnp.asarray(np.array([h, h])), chol=jnp.asarray(L.reshape(g_, -1)), ene0=0.0)
+        pr, pu = propagation.propagator_restricted(dt=0.01, n_walkers=2), propagation.propagator_unrestricted(dt=0.01, n_walkers=2)
+        ra = pr._build_propagation_intermediates(dict(hd), wf.rhf(n_, (1, 1)), dict(rdm1=jnp.asarray(rho)))
+        ua = pu._build_propagation_intermediates(dict(hd), wf.uhf(n_, (1, 1)), dict(rdm1=jnp.asarray(rho)))
+        devs = {"mf_shifts": float(np.abs(np.asarray(ra["mf_shifts"]) - np.asarray(ua["mf_shifts"])).max()), "h0_prop": float(abs(complex(ra["h0_prop"]) - complex(ua["h0_prop"]))),
+                "exp_h1.up": float(np.abs(np.asarray(ra["exp_h1"]) - np.asarray(ua["exp_h1"])[0]).max()), "exp_h1.dn": float(np.abs(np.asarray(ra["exp_h1"]) - np.asarray(ua["exp_h1"])[1]).max())}
+        for o in out:
+            if o["status"] == REFUTED:
+                d = next(v for k, v in devs.items() if o["name"].endswith(k))
+                o["replayed"] = bool(d > 1e-10)
+                o["witness"] = dict(o["witness"], native=dict(max_abs_restricted_minus_unrestricted=d))
+    return out
+
+
+def rdm_allsizes(kind="uhf"):
+    """C01.rdm.allsizes.<kind> (PROOF, all norb / electron numbers): _calc_rdm1 returns rdm1[s][p,q] = sum_i C_s[p,i] conj(C_s)[q,i]
+    (for orthonormal orbitals this is <psi| a+_q a_p |psi>: mathematics; the shape-bounded rdm.true obligations check that link on exact orbitals)."""
+    t0 = time.time()
+    H.setup_repo()
+    import jax
+    import jax.numpy as jnp
+    from ad_afqmc import wavefunctions as wf
+    name = f"C01.rdm.allsizes.{kind}"
+    fns = [f"{WF}.{kind}._calc_rdm1"]
+    sizes = dict(n=5, a=2, b=3)
+    n, a, b = 5, 2, 3
+    if kind == "rhf":
+        trial, wave, atoms = wf.rhf(n, (a, a)), dict(mo_coeff=jnp.zeros((n, a)) + 0j), [T.atom("C", ["n", "a"])]
+        want = lambda at: T.Stack([T.ein("pi,qi->pq", at[0], T.conj(at[0]))] * 2)
+    elif kind == "uhf":
+        trial, wave, atoms = wf.uhf(n, (a, b)), dict(mo_coeff=[jnp.zeros((n, a)) + 0j, jnp.zeros((n, b)) + 0j]), [T.atom("Cu", ["n", "a"]), T.atom("Cd", ["n", "b"])]
+        want = lambda at: T.Stack([T.ein("pi,qi->pq", at[0], T.conj(at[0])), T.ein("pi,qi->pq", at[1], T.conj(at[1]))])
+    else:
+        raise Unsupported(kind)
+    closed = jax.make_jaxpr(lambda wv: trial._calc_rdm1(wv))(wave)
+    it = T.Interp(sizes)
+    try:
+        got, = it.run(closed.jaxpr, closed.consts, atoms)
+    except Unsupported as e:
+        return [ob(name, UNDECIDED, kind="proof", backend="tensor-normal-form", detail=f"Unsupported: {e}", functions=fns, wall=time.time() - t0)]
+    ok = T.equal(got, want(atoms))
+    o = ob(name, DISCHARGED if ok else REFUTED, kind="proof", backend="tensor-normal-form", functions=fns, wall=time.time() - t0,
+           detail=f"rdm1[s] == C_s C_s^dagger for all sizes and all complex orbitals" if ok else f"normal form {str(T.describe(got))[:400]} is not C C^dagger",
+           witness=None if ok else dict(got=str(T.describe(got))[:600]), witness_class="" if ok else "normal-form")
+    if not ok:
+        rng = np.random.default_rng(5)
+        Cs = [rng.normal(size=(4, 2)) + 1j * rng.normal(size=(4, 2)), rng.normal(size=(4, 2)) + 1j * rng.normal(size=(4, 2))]
+        tr = (wf.rhf if kind == "rhf" else wf.uhf)(4, (2, 2))
+        nat = np.asarray(tr._calc_rdm1(dict(mo_coeff=jnp.asarray(Cs[0]) if kind == "rhf" else [jnp.asarray(Cs[0]), jnp.asarray(Cs[1])])))
+        ref = [Cs[0] @ Cs[0].conj().T, (Cs[0] if kind == "rhf" else Cs[1]) @ (Cs[0] if kind == "rhf" else Cs[1]).conj().T]
+        dev = float(max(np.abs(nat[s] - ref[s]).max() for s in range(2)))
+        o["replayed"] = bool(dev > 1e-10)
+        o["witness"]["native"] = dict(max_abs_deviation=dev)
+    return [o]
